@@ -219,4 +219,4 @@ def exhaustive():
         for b in B:
             for c in (2, 3, 4, 5, 6, 7, 8):
                 yield [1] + pn(a) + [c] + pn(b) + [10]
-            yield [1] + pn(a) + [9] + pn(b) + pn(abs(a - b)) + [9] + pn(b) + pn(abs(a - b) + 1)
+            yield [1] + pn(a) + [9] + pn(b) + pn(abs(a - b)) + [9] + pn(b) + pn(min(abs(a - b) + 1, LIMIT - 1))
